@@ -71,6 +71,8 @@ def _targets():
         "get_host": lambda I, v: I.call(sutils.get_host, ("http", v, ("srv", 80))),
         "host_is_trusted": lambda I, v: I.call(sutils.host_is_trusted, (v, ["example.com", ".example.org"])),
         "Request.args": lambda I, v: _args(I, v),
+        # result text may contain modelled punycode output: only "returned" is comparable
+        "get_current_url[host]": lambda I, v: (I.call(sutils.get_current_url, ("http", v, "", "/p", b"q=1")), "returned")[1],
     }
     return T
 
@@ -126,8 +128,16 @@ def body_parser(I, X, target="parse_list_header", n=3, skel="{}"):
         return False, {"exception": type(e).__name__, "msg": str(e)[:80]}
 
 
+def _malformed_host(text):
+    """a Host that the stdlib URL splitter may reject: brackets, a port separator, or
+    non-ASCII characters (the region of the known finding below)"""
+    from symex.poly import pnone_in
+
+    return pnot(pand(pnone_in(text, [0x5B, 0x5D, 0x3A]), pall_in(text, [(0x20, 0x7E)])))
+
+
 # input regions of listed known findings (id -> predicate over the text), per target
-KNOWN_PREDICATES = {}
+KNOWN_PREDICATES = {"get_current_url[host]": [("C07-request-url-malformed-host", _malformed_host)]}
 
 
 def make_stubs():
@@ -193,8 +203,17 @@ def make_stubs():
 
     from symex import stdstubs
 
-    return {base64.b64decode: b64decode_stub, datetime.timedelta: timedelta_stub, urllib.parse.parse_qsl: parse_qsl_stub,
-            codecs.lookup: stdstubs.codecs_lookup_stub}
+    def urlsplit_stub(I, url, scheme="", allow_fragments=True):
+        """urllib.parse.urlsplit is wrapped in functools.lru_cache (C, hashes its arguments):
+        the wrapped pure-Python function is interpreted instead"""
+        return I.call(urllib.parse.urlsplit.__wrapped__, (url, scheme, allow_fragments))
+
+    from harness.c03 import make_stubs as quote_stubs
+
+    st = {base64.b64decode: b64decode_stub, datetime.timedelta: timedelta_stub, urllib.parse.parse_qsl: parse_qsl_stub,
+          codecs.lookup: stdstubs.codecs_lookup_stub, urllib.parse.urlsplit: urlsplit_stub}
+    st.update(quote_stubs())
+    return st
 
 
 def extra_checks(tier, seed, active_known):
@@ -217,7 +236,7 @@ def obligations(tier, seed):
     out = []
     quick = tier == "quick"
     T = _targets()
-    heavy = {"Request.args": 3, "parse_cookie[environ]": 3, "parse_accept_header[CharsetAccept]": 3,
+    heavy = {"get_current_url[host]": 2, "Request.args": 3, "parse_cookie[environ]": 3, "parse_accept_header[CharsetAccept]": 3,
              "parse_accept_header[LanguageAccept]": 3, "parse_accept_header[MIMEAccept]": 3}
     for name in T:
         top = 4 if quick else 6
@@ -241,6 +260,7 @@ def obligations(tier, seed):
         "Authorization.from_header": ["Basic {}", "Digest k={}", "Bearer {}"], "WWWAuthenticate.from_header": ["Digest k={}", 'Digest k="{}"'],
         "get_host": ["{}:80", "[{}]"], "host_is_trusted": ["{}.example.org", "{}:80"],
         "Request.args": ["a={}&b=1"],
+        "get_current_url[host]": ["xn--{}", "a.xn--{}", "{}.b"],
     }
     for name, skels in SK.items():
         for skel in skels:
